@@ -94,49 +94,66 @@ func buildQueries(rng *gen.Rng, names []string, oids [][]byte) []*query {
 	return qs
 }
 
-// hammer runs the queries concurrently against one shared table object.
-func hammer(c *Ctx, label string, tab reftable.Table, qs []*query, goroutines, opsPer int, seed int64, caseInfo map[string]interface{}) {
+// hammer runs the queries concurrently against shared table objects. The expected
+// answers come from `ref`, a separately constructed object over the same bytes, so that
+// every shared object is COLD (never queried) when the goroutines - released together by
+// a barrier - first touch it: lazily initialised state is built under concurrency.
+// mk() is called `fresh` times; each object gets goroutines x opsPer queries.
+func hammer(c *Ctx, label string, ref reftable.Table, mk func() (reftable.Table, func()), fresh int, qs []*query, goroutines, opsPer int, seed int64, caseInfo map[string]interface{}) {
 	r := c.Rep
-	// sequential reference answers from the same object, before any concurrency
 	for _, q := range qs {
-		w, err := runQuery(tab, q)
+		w, err := runQuery(ref, q)
 		if err != nil {
 			r.Violate([]string{"C19", "C02"}, label+"|sequential-query-failed", fmt.Sprintf("%s %q failed sequentially: %v", q.kind, q.key, err), caseInfo)
 			return
 		}
 		q.want = w
 	}
-	var wg sync.WaitGroup
 	var mu sync.Mutex
 	var firstBad string
 	bad := 0
-	for g := 0; g < goroutines; g++ {
-		wg.Add(1)
-		go func(g int) {
-			defer wg.Done()
-			rng := gen.NewRng(gen.Mix(seed, int64(g)))
-			for i := 0; i < opsPer; i++ {
-				q := qs[rng.Intn(len(qs))]
-				got, err := runQuery(tab, q)
-				if err != nil || got != q.want {
-					mu.Lock()
-					bad++
-					if firstBad == "" {
-						if err != nil {
-							firstBad = fmt.Sprintf("goroutine %d: %s %q failed under concurrency: %v %s", g, q.kind, q.key, err, PanicDetail(err))
-						} else {
-							firstBad = fmt.Sprintf("goroutine %d: %s %q returned a different result than sequentially: %s", g, q.kind, q.key, gen.DiffLines(q.want, got))
+	for f := 0; f < fresh; f++ {
+		tab, done := mk()
+		if tab == nil {
+			r.Note("%s: could not build a fresh shared object", label)
+			return
+		}
+		var wg sync.WaitGroup
+		start := make(chan struct{})
+		for g := 0; g < goroutines; g++ {
+			wg.Add(1)
+			go func(g int) {
+				defer wg.Done()
+				rng := gen.NewRng(gen.Mix(seed, int64(g)+int64(f)*1000))
+				<-start
+				for i := 0; i < opsPer; i++ {
+					q := qs[rng.Intn(len(qs))]
+					got, err := runQuery(tab, q)
+					if err != nil || got != q.want {
+						mu.Lock()
+						bad++
+						if firstBad == "" {
+							if err != nil {
+								firstBad = fmt.Sprintf("goroutine %d (query %d on fresh object %d): %s %q failed under concurrency: %v %s", g, i, f, q.kind, q.key, err, PanicDetail(err))
+							} else {
+								firstBad = fmt.Sprintf("goroutine %d (query %d on fresh object %d): %s %q returned a different result than sequentially: %s", g, i, f, q.kind, q.key, gen.DiffLines(q.want, got))
+							}
 						}
+						mu.Unlock()
+						return
 					}
-					mu.Unlock()
-					return
 				}
-			}
-		}(g)
+			}(g)
+		}
+		close(start)
+		wg.Wait()
+		if done != nil {
+			done()
+		}
+		r.Evaluations += goroutines * opsPer
+		r.Count("concurrent_queries", goroutines*opsPer)
+		r.Count("cold_shared_objects", 1)
 	}
-	wg.Wait()
-	r.Evaluations += goroutines * opsPer
-	r.Count("concurrent_queries", goroutines*opsPer)
 	r.SetAdd("shared_objects", label)
 	if bad > 0 {
 		r.Violate([]string{"C19"}, label+"|concurrent-result-differs", firstBad, caseInfo)
@@ -146,7 +163,7 @@ func hammer(c *Ctx, label string, tab reftable.Table, qs []*query, goroutines, o
 // RunC19: readers and merged views can be shared by concurrent goroutines.
 func RunC19(c *Ctx) {
 	r := c.Rep
-	r.Rule = "case = one round: 16..32 goroutines run a PRNG-chosen mix of full scans, seeks, ReadRef and RefsFor on ONE shared Reader (memory-backed and file-backed) and ONE shared Merged (raw NewMerged and Stack.Merged()) built with -race; every result is compared with the answer computed sequentially beforehand, and the race detector's log is parsed by the driver (any report with a reftable frame is a violation). distinct = (round, shared object kind, table); non-trivial = at least 16 goroutines issued overlapping queries on the shared object"
+	r.Rule = "case = one round: 16..32 goroutines run a PRNG-chosen mix of full scans, seeks, ReadRef and RefsFor on ONE shared Reader (memory-backed and file-backed) and ONE shared Merged (raw NewMerged and Stack.Merged()) built with -race; every result is compared with the answer computed sequentially on a SEPARATE object over the same bytes, so each shared object (4 fresh ones per kind and round) is cold when the goroutines, released together, first query it; and the race detector's log is parsed by the driver (any report with a reftable frame is a violation). distinct = (round, shared object kind, table); non-trivial = at least 16 goroutines issued overlapping queries on the shared object"
 	r.Assumptions = []string{"the race detector only sees interleavings that actually occur; rounds are repeated"}
 	rounds := c.N(8, 200)
 	for round := 0; round < rounds; round++ {
@@ -155,7 +172,9 @@ func RunC19(c *Ctx) {
 		}
 		rng := gen.NewRng(gen.Mix(c.Seed^0xc19, int64(round)))
 		goroutines := 16 + rng.Intn(17)
-		ops := 60
+		// every shared object is queried cold; `fresh` objects per kind and round
+		ops := 20
+		fresh := 4
 		// a single table with refs, logs and an object index
 		var t *gen.Table
 		for i := 0; ; i++ {
@@ -185,7 +204,13 @@ func RunC19(c *Ctx) {
 		// memory-backed reader
 		rd, err := rtx.OpenBytes(data, "shared")
 		if err == nil {
-			hammer(c, "Reader(memory)", rd, qs, goroutines, ops, gen.Mix(c.Seed, int64(round)), info)
+			hammer(c, "Reader(memory)", rd, func() (reftable.Table, func()) {
+				x, err := rtx.OpenBytes(data, "shared")
+				if err != nil {
+					return nil, nil
+				}
+				return x, nil
+			}, fresh, qs, goroutines, ops, gen.Mix(c.Seed, int64(round)), info)
 			r.Nontrivial(rep.Hash("c19", fmt.Sprint(c.Seed), fmt.Sprint(round), "mem"))
 		}
 		// file-backed reader
@@ -195,7 +220,18 @@ func RunC19(c *Ctx) {
 		if err == nil {
 			frd, err := reftable.NewReader(bs, "sharedfile")
 			if err == nil {
-				hammer(c, "Reader(file)", frd, buildQueries(rng, names, oids), goroutines, ops, gen.Mix(c.Seed, int64(round)+1), info)
+				hammer(c, "Reader(file)", frd, func() (reftable.Table, func()) {
+					bs, err := reftable.NewFileBlockSource(fn)
+					if err != nil {
+						return nil, nil
+					}
+					x, err := reftable.NewReader(bs, "sharedfile")
+					if err != nil {
+						bs.Close()
+						return nil, nil
+					}
+					return x, func() { x.Close() }
+				}, fresh, buildQueries(rng, names, oids), goroutines, ops, gen.Mix(c.Seed, int64(round)+1), info)
 				r.Nontrivial(rep.Hash("c19", fmt.Sprint(c.Seed), fmt.Sprint(round), "file"))
 				frd.Close()
 			}
@@ -218,8 +254,33 @@ func RunC19(c *Ctx) {
 				mnames = mnames[:12]
 			}
 			minfo := map[string]interface{}{"prop": "C19", "seed": c.Seed, "index": round, "set": ts.Note, "goroutines": goroutines}
-			hammer(c, "Merged(raw)", b.raw, buildQueries(rng, mnames, moids), goroutines, ops, gen.Mix(c.Seed, int64(round)+2), minfo)
-			hammer(c, "Merged(stack view, file-backed)", b.st.Merged(), buildQueries(rng, mnames, moids), goroutines, ops, gen.Mix(c.Seed, int64(round)+3), minfo)
+			hash := reftable.SHA1ID
+			if ts.Tables[0].Cfg.SHA256 {
+				hash = reftable.SHA256ID
+			}
+			hammer(c, "Merged(raw)", b.raw, func() (reftable.Table, func()) {
+				var tabs []reftable.Table
+				for ti, d := range b.datas {
+					x, err := rtx.OpenBytes(d, fmt.Sprintf("t%d", ti))
+					if err != nil {
+						return nil, nil
+					}
+					tabs = append(tabs, x)
+				}
+				m, err := reftable.NewMerged(tabs, hash)
+				if err != nil {
+					return nil, nil
+				}
+				return m, nil
+			}, fresh, buildQueries(rng, mnames, moids), goroutines, ops, gen.Mix(c.Seed, int64(round)+2), minfo)
+			scfg := rtx.Config(ts.Tables[0].Cfg)
+			hammer(c, "Merged(stack view, file-backed)", b.st.Merged(), func() (reftable.Table, func()) {
+				st, err := reftable.NewStack(b.dir, scfg)
+				if err != nil {
+					return nil, nil
+				}
+				return st.Merged(), func() { st.Close() }
+			}, fresh, buildQueries(rng, mnames, moids), goroutines, ops, gen.Mix(c.Seed, int64(round)+3), minfo)
 			r.Nontrivial(rep.Hash("c19", fmt.Sprint(c.Seed), fmt.Sprint(round), "merged"))
 			b.close()
 		}
